@@ -11,6 +11,21 @@ open Cstruct
 def AlignedStart (cfg : Cfg) (al : Bool) (fs : Fields) (pos : Nat) : Prop :=
   al = true → ∀ sz sa offs, structLayout cfg al fs = .ok (sz, sa, offs) → sa ∣ pos
 
+/-- the members of a field list (walked along the layout offsets) that have no bit width, a layout offset and a
+    static size consume exactly that size when their own `_read` is run where the layout puts them -/
+def SubSizesAux (cfg : Cfg) (data : Bytes) (start : Nat) : Fields → List (Option Nat) → Prop
+  | .nil, _ => True
+  | .cons _ _ ty bits rest, offs =>
+    (bits = none → ∀ o n, hdOff offs = some o → ty.size cfg = some n →
+      ∀ ctx v p, read cfg ty ctx data (start + o) = .ok (v, p) → p = start + o + n) ∧
+    SubSizesAux cfg data start rest (offs.drop 1)
+
+/-- static members read through their own `_read` consume exactly their declared size where the layout puts them.
+    This is what the compiler assumes when it emits no seek after a nested structure (it is not a theorem about `read`:
+    an aligned structure nested in a packed one at a misaligned offset pads on the absolute position). -/
+def SubSizes (cfg : Cfg) (al : Bool) (fs : Fields) (data : Bytes) (start : Nat) : Prop :=
+  ∀ sz sa offs, structLayout cfg al fs = .ok (sz, sa, offs) → SubSizesAux cfg data start fs offs
+
 def samplecfg : Cfg := { endian := .little, ptr := .pint 8 false, ptrAlign := 8, consts := [] }
 
 /-- aligned `struct T { uint8 a:3; uint8 b:4; uint32 c; struct { uint8 x; uint32 y; } s; uint16 d[2]; void v; int24 e; }` -/
